@@ -65,6 +65,7 @@ static void detect_opt(int *opt, fb_t a) {
 
 void eb_curve_init(void) {
 	ctx_t *ctx = core_get();
+	ctx->eb_id = 0;
 #ifdef EB_PRECO
 	for (int i = 0; i < RLC_EB_TABLE; i++) {
 		ctx->eb_ptr[i] = &(ctx->eb_pre[i]);
